@@ -15,7 +15,7 @@ Record mbox := mkMb {
 Definition mb_empty : mbox := mkMb None None None None.
 
 (* one Session call of the relay *)
-Record rcall := mkRc {
+Record relcall := mkRc {
   rc_box : mbox;
   rc_prev : option Z;       (* prevSentOpenToLocal *)
   rc_w : wst;               (* the write loop *)
@@ -25,7 +25,7 @@ Record side := mkSide {
   s_cl : cstate;            (* the client *)
   s_cq : list request;      (* client -> relay, not yet read *)
   s_rq : list resp;         (* relay -> client, not yet read *)
-  s_call : option rcall }.
+  s_call : option relcall }.
 
 Record world := mkW { w_a : side; w_b : side; w_epoch : Z }.
 
@@ -44,11 +44,11 @@ Definition set_epoch (e : Z) (w : world) : world := mkW (w_a w) (w_b w) e.
 Definition set_cl (c : cstate) (s : side) : side := mkSide c (s_cq s) (s_rq s) (s_call s).
 Definition set_cq (q : list request) (s : side) : side := mkSide (s_cl s) q (s_rq s) (s_call s).
 Definition set_rq (q : list resp) (s : side) : side := mkSide (s_cl s) (s_cq s) q (s_call s).
-Definition set_call (c : option rcall) (s : side) : side := mkSide (s_cl s) (s_cq s) (s_rq s) c.
+Definition set_call (c : option relcall) (s : side) : side := mkSide (s_cl s) (s_cq s) (s_rq s) c.
 
-Definition set_box (b : mbox) (c : rcall) : rcall := mkRc b (rc_prev c) (rc_w c) (rc_linked c).
-Definition wake_rc (c : rcall) : rcall := mkRc (rc_box c) (rc_prev c) (wake (rc_w c)) (rc_linked c).
-Definition unlink (c : rcall) : rcall := mkRc (rc_box c) (rc_prev c) (rc_w c) false.
+Definition set_box (b : mbox) (c : relcall) : relcall := mkRc b (rc_prev c) (rc_w c) (rc_linked c).
+Definition wake_rc (c : relcall) : relcall := mkRc (rc_box c) (rc_prev c) (wake (rc_w c)) (rc_linked c).
+Definition unlink (c : relcall) : relcall := mkRc (rc_box c) (rc_prev c) (rc_w c) false.
 
 (* sess.broadcast(): both write loops *)
 Definition sess_bcast (w : world) : world :=
@@ -57,7 +57,7 @@ Definition sess_bcast (w : world) : world :=
 
 (* what attach and detach do to the remaining peer's mailbox:
    recv, recvSent = nil, nil; recvClear, outAcked = nil, nil *)
-Definition clear_partner (c : rcall) : rcall := set_box mb_empty c.
+Definition clear_partner (c : relcall) : relcall := set_box mb_empty c.
 
 Fixpoint reqs_of_obs (l : list obs) : list request :=
   match l with
@@ -262,7 +262,9 @@ Definition wstep (w : world) (a : wact) : option (world * list (bool * obs)) :=
             let w1 := ss x (set_call None sd) w in
             let pa := gs (negb x) w1 in
             let w2 := ss (negb x) (set_call (option_map (fun c => wake_rc (clear_partner c)) (s_call pa)) pa) w1 in
-            Some (set_epoch (w_epoch w + 1) w2, [])
+            (* seqno++; maybeReleaseSession: with no peer left the tracker is deleted and the
+               next Session call starts a fresh one at seqno 0 *)
+            Some (set_epoch (match s_call pa with Some _ => w_epoch w + 1 | None => 0 end) w2, [])
       | None => None
       end
   | WDrop x req k =>
